@@ -16,10 +16,21 @@ type PromoT struct {
 	S int64 `json:"s"`
 	E int64 `json:"e"`
 	D int64 `json:"d"`
+	// Raw: the discount as spelled in the published text, when it is not the canonical spelling of D (a spelling
+	// the stateless validation must refuse: "005" is 5, not 0.05; D then holds what the text means, over Scale)
+	Raw string `json:"-"`
 }
 type PromoV struct {
-	V int64 `json:"v"`
-	D int64 `json:"d"`
+	V   int64  `json:"v"`
+	D   int64  `json:"d"`
+	Raw string `json:"-"`
+}
+
+func spell(d int64, raw string) string {
+	if raw != "" {
+		return raw
+	}
+	return fmtDiscount(d)
 }
 
 // MPricing is the model's pricing record: base price, time promotions, volume promotions
@@ -116,7 +127,7 @@ func PricingText(p MPricing, denom string) string {
 				b.WriteString(",")
 			}
 			fmt.Fprintf(&b, `{"start_time":"%s","end_time":"%s","discount":"%s"}`,
-				realTime(t.S).Format(time.RFC3339Nano), realTime(t.E).Format(time.RFC3339Nano), fmtDiscount(t.D))
+				realTime(t.S).Format(time.RFC3339Nano), realTime(t.E).Format(time.RFC3339Nano), spell(t.D, t.Raw))
 		}
 		b.WriteString("]")
 	}
@@ -126,7 +137,7 @@ func PricingText(p MPricing, denom string) string {
 			if i > 0 {
 				b.WriteString(",")
 			}
-			fmt.Fprintf(&b, `{"volume":%d,"discount":"%s"}`, v.V, fmtDiscount(v.D))
+			fmt.Fprintf(&b, `{"volume":%d,"discount":"%s"}`, v.V, spell(v.D, v.Raw))
 		}
 		b.WriteString("]")
 	}
